@@ -12,6 +12,8 @@ import (
 	"verif/internal/c08"
 	"verif/internal/c11"
 	"verif/internal/c15"
+	"verif/internal/c16"
+	"verif/internal/c18"
 	"verif/internal/c19"
 	"verif/internal/mach"
 	"verif/internal/wire"
@@ -40,10 +42,17 @@ func main() {
 		o = c08.Run(*seed, *n)
 	case "c19":
 		o = c19.Run(*seed, *n)
+	case "c18":
+		o = c18.Run(*seed, *n)
+	case "c16":
+		o = c16.Run(*seed, *n)
 	case "c15":
 		o = c15.Run(*seed, *n)
 	case "mach":
 		o = mach.RunRandom("mach", *seed, *n, 60, nil)
+	case "c18r":
+		o = mach.RunRandom("c18r", *seed, *n, 60, func(g *mach.Gen) { g.FaultP = 30 })
+		o.Meta.Rule = "as the mach stream, with a backend failure injected into 30% of the requests at a random call index 0..6 (generic / not-found / token-not-found / user-found); " + o.Meta.Rule
 	default:
 		fmt.Fprintln(os.Stderr, "unknown stream", *stream)
 		os.Exit(2)
